@@ -9,7 +9,7 @@ CHECK = dict(
          "x class-targeted faults x upload server behaviours (Location styles, min chunk, partial acceptance with 202/416, no-progress servers, refused monolithic PUT, early 201). "
          "Non-trivial = at least one injected fault was delivered, or >= 2 hosts configured; distinct by (operation/request list, parameters, per-host words, limit).",
     jobs=[REPLAY,
-          rapid("prop", "TestVerifProp", 4800, 96000, sq=16, st=16),
+          rapid("prop", "TestVerifProp", 8000, 320000, sq=16, st=16),
           plain("exhaustive", "TestVerifExhaustive", sq=8, st=16)],
     technique="property-based testing (rapid) with an in-process model registry that owns the transport and executes generated fault plans; exhaustive enumeration of short fault words; log-based oracles (attempt counts, monotonic timestamps, request targets) plus a fault-free twin run",
     level_text="Fault sequences are generated (and, for one GET and one upload at limit 1-3, enumerated completely up to length limit+1) and executed by a model registry; attempts per logical request, "
